@@ -63,7 +63,7 @@ def _cm(x):
         return x
 
 
-def evaluate(c, m, hist, float_heights=False):
+def evaluate(c, m, hist, float_heights=False, observers=False):
     """C03 predicate at a decided state.  Returns violations."""
     obs = hjimpl.observe(c)
     if obs['stage'] not in ('finished', 'won', 'drawn'):
@@ -79,6 +79,8 @@ def evaluate(c, m, hist, float_heights=False):
     case = {'kind': 'history', 'bibs': list(m.order), 'calls': [hjsearch.enc(x) for x in hist]}
     if float_heights:
         case['float_heights'] = True
+    if observers:
+        case['observers'] = True
     for clause, detail in bad:
         out.append(V(clause, ['places', clause] + feats, case,
                      {'detail': detail, 'stage': obs['stage'], 'cards': obs['cards'],
@@ -104,7 +106,7 @@ def nontrivial(obs, first_jo):
 
 def examine(case):
     """Replay a stored history on the implementation alone and judge every decided state it passes through."""
-    p = ImplPlayer(0, bool(case.get('float_heights')))
+    p = ImplPlayer(0, bool(case.get('float_heights')), bool(case.get('observers')))
     p.bibs = list(case['bibs'])
     out = []
     for raw in case['calls']:
@@ -113,8 +115,55 @@ def examine(case):
             p.hist.append(call)        # a refused call is part of the history all the same (it must leave no trace)
         elif p.c.state in ('finished', 'won', 'drawn'):
             m = M(p.bibs, p.first_jo if p.first_jo is not None and p.first_jo < len(p.c.heights) else None)
-            out.extend(evaluate(p.c, m, p.hist, p.float_heights))
+            out.extend(evaluate(p.c, m, p.hist, p.float_heights, p.observers))
+        else:
+            out.extend(undecided(p))
     return out
+
+
+def undecided(p):
+    """A tie for first is never left standing: situations, read from the cards alone, in which the competition must have
+    been decided - everybody has retired (after a clearance somewhere), or a jump-off round is complete with exactly one
+    clearance - while the library still reports it as running."""
+    c = p.c
+    if c.state in ('finished', 'won', 'drawn', 'scheduled'):
+        return []
+    cards = {j.bib: list(j.attempts_by_height) for j in c.jumpers}
+    nh = len(c.heights)
+    if not cards or not nh or not any('o' in cell for card in cards.values() for cell in card):
+        return []
+    why = None
+    if all('r' in ''.join(card) for card in cards.values()):
+        why = 'everybody-has-retired'
+    elif c.state == 'jumpoff' and p.first_jo is not None and p.first_jo < nh:
+        fj, last = p.first_jo, nh - 1
+        cell = lambda b, i: cards[b][i] if i < len(cards[b]) else ''
+        if not any('o' in cell(b, i) for b in cards for i in range(fj)):
+            return []        # a "jump-off" among athletes without any clearance: the property is silent there
+        # the participants: the athletes tied for first on the regular card (countback over the regular columns)
+        keys = {b: hjmodel.countback_key(cards[b], list(c.heights), fj) for b in cards}
+        placed = [k for k in keys.values() if k is not None]
+        P = [b for b in cards if placed and keys[b] == min(placed)]
+
+        def out_earlier(b):
+            if 'r' in ''.join(cards[b][:last]):
+                return True
+            return any('x' in cell(b, j) and 'o' not in cell(b, j) and any('o' in cell(o_, j) for o_ in P if o_ != b)
+                       for j in range(fj, last))
+        clear = [b for b in P if 'o' in cell(b, last)]
+        rest = [b for b in P if b not in clear]
+        if len(clear) == 1 and all(cell(b, last) in ('x', 'r') or out_earlier(b) for b in rest) and \
+                all(cell(b, last) or out_earlier(b) for b in rest):
+            why = 'jump-off-round-complete-with-one-clearance'
+    if not why:
+        return []
+    case = {'kind': 'history', 'bibs': list(p.bibs), 'calls': [hjsearch.enc(x) for x in p.hist]}
+    if p.float_heights:
+        case['float_heights'] = True
+    if p.observers:
+        case['observers'] = True
+    return [V('tie-for-first-never-left-standing', ['undecided', why, c.state], case,
+              {'state': c.state, 'cards': cards, 'heights': [str(h) for h in c.heights]}, 'finished / won / drawn')]
 
 
 def shrink(bucket):
@@ -148,8 +197,9 @@ def shrink(bucket):
 class ImplPlayer(object):
     """Drives the implementation alone (no reference model): C03 judges only the final placings, from the cards."""
 
-    def __init__(self, n, float_heights=False):
+    def __init__(self, n, float_heights=False, observers=False):
         self.float_heights = float_heights
+        self.observers = observers        # read the card / rankings / trial list after every call (reading changes nothing)
         self.last_h = None
         self.c = hjimpl.new_comp()
         self.bibs = BIBS[:n]
@@ -159,8 +209,18 @@ class ImplPlayer(object):
         for b in self.bibs:
             self.call(('add', b))
 
+    def observe(self):
+        c = self.c
+        try:
+            c.to_matrix(); c.to_matrix(['bib']); list(c.trials); c.remaining; c.eliminated; c.is_finished; c.is_running
+            [(j.place, j.ranking_key, j.has_retired) for j in c.jumpers]
+        except Exception:
+            pass          # (a read that raises is C08's / C10's business, not a placing)
+
     def call(self, call):
         r = hjimpl.apply(self.c, call, self.float_heights)
+        if self.observers:
+            self.observe()
         if r[0] != 'ok':
             return False
         self.hist.append(call)
@@ -214,10 +274,14 @@ class M(object):
 
 
 def check_decided(ctx, p):
+    if p.c.state not in ('finished', 'won', 'drawn'):
+        vs = undecided(p)
+        if vs:
+            ctx.violations(vs)
     if p.c.state in ('finished', 'won', 'drawn'):
         ctx.count()
         m = M(p.bibs, p.first_jo if p.first_jo is not None and p.first_jo < len(p.c.heights) else None)
-        ctx.violations(evaluate(p.c, m, p.hist, p.float_heights))
+        ctx.violations(evaluate(p.c, m, p.hist, p.float_heights, p.observers))
         obs = hjimpl.observe(p.c)
         if p.float_heights:
             obs['heights'] = [_cm(h) for h in obs['heights']]
@@ -300,7 +364,9 @@ def random_play(ctx, draw):
     # one play in four hands the bar heights over as floats on 1 cm steps from anywhere between 0.95 and 3.44 (callers
     # do; 2.01 is not exactly representable): the placing is about the heights, not about their binary representation
     fh = draw(4) == 0
-    p = ImplPlayer(n, fh)
+    p = ImplPlayer(n, fh, observers=(draw(3) == 0))
+    if p.observers:
+        ctx.label('play-with-reads-after-every-call')
     pokes = draw(3) == 0          # one play in three has forbidden calls tried in between (they must leave no trace)
     if pokes:
         ctx.label('play-with-forbidden-calls')
